@@ -83,6 +83,30 @@ TNext ==
 TSpec == TInit /\ [][TNext]_xvars
 
 ---------------------------------------------------------------------------
+(* Structured exhaustive scenario family (generator): two direct inserts   *)
+(* into the block trie, one child, every sequence of 3..4 operations in    *)
+(* the child (overwrite and restore, split and collapse, ...), merge.      *)
+SPath(i) == (CHOOSE q \in [1..Cardinality(Paths) -> Paths] : \A a, b \in 1..Cardinality(Paths) : a # b => q[a] # q[b])[i]
+SNext ==
+  \/ /\ Len(hist) < 2
+     /\ \E v \in Values : /\ tcs' = [tcs EXCEPT ![0] = InsertResp(tcs[0], SPath(Len(hist) + 1), v).c]
+                           /\ hist' = Append(hist, Rec("ins", 0, SPath(Len(hist) + 1), v))
+     /\ UNCHANGED <<content, startc, status>>
+  \/ /\ Len(hist) = 2
+     /\ status' = [status EXCEPT ![1] = "open"] /\ tcs' = [tcs EXCEPT ![1] = tcs[0]] /\ startc' = [startc EXCEPT ![1] = tcs[0]]
+     /\ hist' = Append(hist, Rec("open", 1, <<>>, "")) /\ UNCHANGED content
+  \/ /\ Len(hist) \in 3..6 /\ Open(1)
+     /\ \E p \in Paths :
+           \/ \E v \in Values : /\ tcs' = [tcs EXCEPT ![1] = InsertResp(tcs[1], p, v).c] /\ hist' = Append(hist, Rec("ins", 1, p, v))
+           \/ /\ tcs' = [tcs EXCEPT ![1] = DeleteResp(tcs[1], p).c] /\ hist' = Append(hist, Rec("del", 1, p, ""))
+     /\ UNCHANGED <<content, startc, status>>
+  \/ /\ Len(hist) \in 6..7 /\ Open(1)
+     /\ status' = [status EXCEPT ![1] = "merged"] /\ tcs' = [tcs EXCEPT ![0] = tcs[1]]
+     /\ hist' = Append(hist, Rec("merge", 1, <<>>, "")) /\ Emit(hist')
+     /\ UNCHANGED <<content, startc>>
+SSpecGen == TInit /\ [][SNext]_xvars
+
+---------------------------------------------------------------------------
 \* isolation: an action on one trie changes at most that trie and (merge) the parent
 Isolation ==
   [][\A t \in {0} \cup Children :
